@@ -243,8 +243,10 @@ fn read_battery(cf: &mut CompoundFile<MonFile>, shared: &crate::backend::Shared,
                 let _ = s.seek(SeekFrom::Start(0));
                 let mut v = Vec::new();
                 api(shared);
-                // cap what a lying length can make us read
-                let r = (&mut s).take(3_000_000).read_to_end(&mut v);
+                // every other time through the handle's own read_to_end (which a length
+                // taken on trust could turn into one huge reservation; what can really be
+                // read is bounded by the file), otherwise through a capped adapter
+                let r = if rng.chance(1, 2) { s.read_to_end(&mut v) } else { (&mut s).take(3_000_000).read_to_end(&mut v) };
                 if let Err(e) = r {
                     rep.set_insert("error_families", error_family(&e));
                 }
@@ -529,7 +531,11 @@ fn mutate_battery(cf: &mut CompoundFile<MonFile>, rng: &mut Rng, rep: &mut Repor
                     let r = (|| {
                         let mut s = NoDropOnPanic::new(cf.open_stream(p)?);
                         let mut v = Vec::new();
-                        (&mut *s).take(1_000_000).read_to_end(&mut v)?;
+                        if rng.chance(1, 2) {
+                            s.read_to_end(&mut v)?;
+                        } else {
+                            (&mut *s).take(1_000_000).read_to_end(&mut v)?;
+                        }
                         s.done();
                         Ok(())
                     })();
